@@ -11,6 +11,7 @@ import (
 	"context"
 	"encoding/json"
 	"fmt"
+	"runtime/debug"
 	"sort"
 	"strings"
 	"testing"
@@ -311,6 +312,7 @@ func runConflict(r *report.Run, c *ConflictCase) *report.Failure {
 }
 
 func TestCheck(t *testing.T) {
+	debug.SetMaxStack(64 << 20) // runaway recursion dies fast (fatal error: stack overflow) instead of eating memory
 	r := report.Begin("C08")
 	defer r.Finish()
 	r.Rule("generated chains (>= ~6 epochs on custom presets) with deposits that add validators mid-epoch, upgrades, sync-period boundaries, fork and reload actions at drawn points, plus a directed deposit-burst template; after every slot and block the live EpochsContext is compared field by field (shufflings incl. committees, proposers, effective balances, total stake and its square root, sync-committee indices, pubkey-cache lookups for every index and registered key) with NewEpochsContext(state); from each reload point a second instance continues from re-read bytes with a fresh context and must give identical verdicts and roots. non-trivial = >=2 epoch rotations and >=1 of {deposit-added validator, upgrade, sync rotation} before the comparison; distinct key = (fork path, event set)")
@@ -347,7 +349,10 @@ func TestCheck(t *testing.T) {
 	}
 	if !r.Search(t, "tour-conflicting-deposit-histories", 101, nc, func(rt *rapid.T) (any, *report.Failure) {
 		c := sim.GenConflictCase(rt)
-		return c, runConflict(r, c)
+		r.Inflight(c) // a cache that recurses or loops forever kills the process: the driver then reports this case
+		f := runConflict(r, c)
+		r.ClearInflight()
+		return c, f
 	}) {
 		return
 	}
